@@ -136,14 +136,16 @@ impl Dg {
     // ------------------------------------------------------------------ moves (same oriented link unless stated)
 
     pub fn renumber(&self, f: impl Fn(usize) -> usize) -> Dg { Dg { x: self.x.iter().map(|(t, e)| (*t, [f(e[0]), f(e[1]), f(e[2]), f(e[3])])).collect() } }
-    /// renumber labels by a pseudo-random injection into 0..4*max
+    /// renumber labels by a pseudo-random injection into 0..3*#labels+7 (one seed in four: scaled by 997 and shifted)
     pub fn renumber_seeded(&self, seed: u64) -> Dg {
         let labels: Vec<usize> = self.labels().into_iter().collect();
         let m = labels.len().max(1) * 3 + 7;
         let mut pool: Vec<usize> = (0..m).collect();
         let mut s = seed | 1;
         for i in (1..pool.len()).rev() { s = s.wrapping_mul(6364136223846793005).wrapping_add(1442695040888963407); let j = (s >> 33) as usize % (i + 1); pool.swap(i, j); }
-        let map: HashMap<usize, usize> = labels.iter().enumerate().map(|(i, l)| (*l, pool[i])).collect();
+        // one seed in four: sparse, large labels (PD codes need not use consecutive or small labels)
+        let (mul, off) = if seed % 4 == 0 { (997usize, 1_000_003usize * ((seed as usize >> 2) % 5)) } else { (1, 0) };
+        let map: HashMap<usize, usize> = labels.iter().enumerate().map(|(i, l)| (*l, pool[i] * mul + off)).collect();
         self.renumber(|l| map[&l])
     }
     pub fn reorder_seeded(&self, seed: u64) -> Dg {
